@@ -596,8 +596,21 @@ fn strip_markers(t: &str) -> String {
 struct Numberer<'c, 'a> {
     cx: &'c mut Ctx<'a>,
 }
+const ETA_METHODS: &[&str] = &["map", "map_err", "and_then", "or_parse", "or_always_parse", "or_give_up"];
+
 impl<'c, 'a> VisitMut for Numberer<'c, 'a> {
     fn visit_expr_mut(&mut self, e: &mut Expr) {
+        // R9b: a path (function item / enum constructor) passed to a combinator is eta-expanded into a closure literal
+        if let Expr::MethodCall(mc) = e {
+            if ETA_METHODS.contains(&mc.method.to_string().as_str()) && mc.args.len() == 1 {
+                if let Expr::Path(p) = &mc.args[0] {
+                    let p = p.clone();
+                    let line = mc.method.span().start().line;
+                    self.cx.log.push(json!({"rule": "R9", "line": line, "what": format!("function value {} passed to .{}() eta-expanded", one_line(p.to_token_stream()), mc.method)}));
+                    mc.args[0] = syn::parse_quote!(|__vp_eta| #p(__vp_eta));
+                }
+            }
+        }
         match e {
             Expr::While(w) => {
                 let n = self.cx.loops;
@@ -1161,6 +1174,21 @@ impl<'x> VisitMut for AliasElim<'x> {
     }
 }
 
+struct PlaceSubst<'x> {
+    place: String,
+    with: &'x Expr,
+}
+impl<'x> VisitMut for PlaceSubst<'x> {
+    fn visit_expr_mut(&mut self, e: &mut Expr) {
+        if matches!(e, Expr::Field(_) | Expr::Path(_)) && norm(e.to_token_stream()) == self.place {
+            *e = self.with.clone();
+            return;
+        }
+        // `&mut PLACE` -> `&mut *name` is fine (reborrow)
+        visit_mut::visit_expr_mut(self, e);
+    }
+}
+
 struct BreakToReturn {
     n: usize,
 }
@@ -1218,6 +1246,30 @@ pub fn extract_fn(file: &syn::File, name: &str, opts: &Value, rules: &[Rule], pl
         let stripped = strip_attr_tokens(block.to_token_stream());
         block = syn::parse2(stripped).map_err(|e| format!("re-parse after attribute stripping: {}", e))?;
         let mut dummy = Ctx { rules, opts, plan, log: vec![], errors: vec![], loops: 0, closures: 0, dasserts: 0 };
+        // the parent's local aliases (R30) are eliminated first so that the closure body mentions places of the parent
+        if let Some(al) = lifted["parent_aliases"].as_array() {
+            for a in al {
+                let name = a.as_str().unwrap_or("");
+                let mut found: Option<(usize, Expr)> = None;
+                for (i, st) in block.stmts.iter().enumerate() {
+                    if let Stmt::Local(l) = st {
+                        if let (syn::Pat::Ident(pi), Some(init)) = (&l.pat, &l.init) {
+                            if pi.ident == name {
+                                if let Expr::Reference(r) = &*init.expr {
+                                    if r.mutability.is_some() {
+                                        found = Some((i, (*r.expr).clone()));
+                                    }
+                                }
+                            }
+                        }
+                    }
+                }
+                if let Some((i, pl)) = found {
+                    block.stmts.remove(i);
+                    AliasElim { name, place: &pl }.visit_block_mut(&mut block);
+                }
+            }
+        }
         Numberer { cx: &mut dummy }.visit_block_mut(&mut block);
         let mut fc = crate::closures::FindClosure { want: n, found: None };
         fc.visit_block(&block);
@@ -1265,6 +1317,23 @@ pub fn extract_fn(file: &syn::File, name: &str, opts: &Value, rules: &[Rule], pl
             _ => syn::ReturnType::Default,
         };
         let mut body = crate::closures::closure_body_block(&c);
+        // captured places of the parent (`name = &mut self.f : T` / `name = self.f : T`) become the parameter
+        for p in crate::closures::split_top_commas(params.split(';').next().unwrap_or("")) {
+            if let Some((lhs, _ty)) = p.split_once(':') {
+                if let Some((n, ex)) = lhs.split_once('=') {
+                    let n = n.trim();
+                    if let Ok(e) = syn::parse_str::<Expr>(ex.trim()) {
+                        let (place, by_ref) = match &e {
+                            Expr::Reference(r) => ((*r.expr).clone(), true),
+                            other => (other.clone(), false),
+                        };
+                        let id = syn::Ident::new(n, Span::call_site());
+                        let with: Expr = if by_ref { syn::parse_quote!((*#id)) } else { syn::parse_quote!(#id) };
+                        PlaceSubst { place: norm(place.to_token_stream()), with: &with }.visit_block_mut(&mut body);
+                    }
+                }
+            }
+        }
         for (k, l) in deref_lets.into_iter().enumerate() {
             body.stmts.insert(k, l);
         }
